@@ -708,12 +708,13 @@ pub fn run(rp: &Replay, st: &mut Stats) -> Option<Violation> {
                     Ok(x) => x,
                     Err(m) => return Some(viol(P, "panic", i, format!("cr3 switch + flush_all panicked: {m}"))),
                 };
-                let mut want = vec![];
-                for _ in 0..reads {
-                    want.push(Ev::ReadCr { cr: 3, val: old });
-                }
-                want.extend([Ev::WriteCr { cr: 3, val: new }, Ev::ReadCr { cr: 3, val: new }, Ev::WriteCr { cr: 3, val: new }, Ev::ReadCr { cr: 3, val: new }]);
-                if trace != want {
+                // flush_all "reloads the root register with its current value": one write of the value
+                // the register holds; how often the register is read around it is the implementation's
+                // business (a read-back after the reload, say), anything but CR3 accesses is not
+                let writes: Vec<u64> = trace.iter().filter_map(|e| if let Ev::WriteCr { cr: 3, val } = e { Some(*val) } else { None }).collect();
+                let only_cr3 = trace.iter().all(|e| matches!(e, Ev::ReadCr { cr: 3, .. } | Ev::WriteCr { cr: 3, .. }));
+                let reads_seen = trace.iter().filter(|e| matches!(e, Ev::ReadCr { cr: 3, .. })).count() as u64;
+                if !only_cr3 || writes != [new, new] || reads_seen < reads + 2 {
                     return Some(viol(P, "flush-all-after-switch", i, format!("root register {old:#x}; {reads} reads, a switch to {new:#x}, flush_all() and a read in one function executed {trace:x?}; flush_all must reload the root register with its current value {new:#x}")));
                 }
                 if after != new || world().cpu.cr3 != new {
